@@ -82,6 +82,8 @@ def run(chk):
     for w in lookalikes:
         texts += [w, " " + w + "\n", w * 3, "\n\t" + w + " \r\n", w + "send [USD 1] (source = @a destination = @b)", "send [USD 1] (source = @a destination = @b)" + w]
     texts += ["".join(rng.choice(lookalikes + [" ", "\n", "\t"]) for _ in range(rng.randrange(1, 6))) for _ in range(40)]
+    for i in range(0, min(len(texts), 3000), max(1, len(texts) // chk.size(25, 300))):
+        texts += gen_check.crlf_cuts(texts[i], rng)          # CR LF documents cut right after the carriage return
     texts += big_texts(rng, chk.size(2, 6))
     texts = list(dict.fromkeys(texts))
     gos = runner.run_go([{"id": i, "op": "parse", "script": t} for i, t in enumerate(texts)])
